@@ -141,6 +141,60 @@ func (f *Facts) Holds(b *ssa.BasicBlock, pred func(Fact) bool) bool {
 	return false
 }
 
+// OnEdge returns the facts that hold whenever control passes from p to its successor b: the facts on entry to p
+// and what the branch that ends p says about that edge.
+func (f *Facts) OnEdge(p, b *ssa.BasicBlock) []Fact {
+	out := factSet{}
+	for k := range f.in[p] {
+		out[k] = struct{}{}
+	}
+	if len(p.Instrs) > 0 && len(p.Succs) == 2 {
+		if ifi, ok := p.Instrs[len(p.Instrs)-1].(*ssa.If); ok {
+			if p.Succs[0] == b && p.Succs[1] != b {
+				addFact(out, ifi.Cond, true, 0)
+			} else if p.Succs[1] == b && p.Succs[0] != b {
+				addFact(out, ifi.Cond, false, 0)
+			}
+		}
+	}
+	res := make([]Fact, 0, len(out))
+	for k := range out {
+		res = append(res, k)
+	}
+	return res
+}
+
+// JoinCase is one value a joined operand can stand for, with the facts known whenever it stands for it.
+type JoinCase struct {
+	Val   ssa.Value
+	Facts []Fact
+}
+
+// JoinCases reads operand v of an instruction in block at per incoming edge: a φ stands for the value of edge i
+// exactly when control entered its block over that edge, so what is known on that edge (and, as always, on entry
+// to at) is known whenever that value is the one used. `k := A; if c { k = B }; use(k)` and the two results of an
+// inlined helper are thereby read like `if c { use(B) } else { use(A) }`. A non-φ operand is its own single case.
+// A φ that feeds itself (a loop-carried value) is returned as it is: its case says nothing, callers fail closed.
+func (f *Facts) JoinCases(v ssa.Value, at *ssa.BasicBlock) []JoinCase {
+	var out []JoinCase
+	var walk func(x ssa.Value, known []Fact, onPath map[*ssa.Phi]bool, depth int)
+	walk = func(x ssa.Value, known []Fact, onPath map[*ssa.Phi]bool, depth int) {
+		ph, isPhi := x.(*ssa.Phi)
+		if !isPhi || onPath[ph] || depth > 6 || len(ph.Edges) != len(ph.Block().Preds) {
+			out = append(out, JoinCase{x, known})
+			return
+		}
+		onPath[ph] = true
+		for i, e := range ph.Edges {
+			k := append(append([]Fact(nil), known...), f.OnEdge(ph.Block().Preds[i], ph.Block())...)
+			walk(e, k, onPath, depth+1)
+		}
+		delete(onPath, ph)
+	}
+	walk(v, f.At(at), map[*ssa.Phi]bool{}, 0)
+	return out
+}
+
 // Reachable reports whether b is reachable from the entry.
 func (f *Facts) Reachable(b *ssa.BasicBlock) bool {
 	_, ok := f.in[b]
